@@ -58,6 +58,8 @@ CONSTANTS
  ReqFin = %s
  MaxPauses = %d
  MaxRestarts = %d
+ MaxCloses = %d
+ OldEnds = %s
  MaxLen = %d
  DumpAtEnd = %s
 %s
@@ -67,17 +69,23 @@ CONSTANTS
 def sys_model(ctx):
     """exhaustive two-node model (Sys.tla): C01_Delivered / C03_OnlyBoth over all interleavings of message deliveries, graphsync steps, app pauses and re-validations"""
     # (direction, limits, finalization, app pauses, restarts): pauses/limits and restarts are explored in separate configurations (their product does not finish)
+    ALL_OLD = '{"cancelled","error","silent"}'
     if ctx.quick():
-        combos = [("push", "l2", "TRUE", 1, 0), ("pull", "l2", "FALSE", 1, 0), ("push", "none", "FALSE", 0, 1), ("pull", "none", "TRUE", 0, 1)]
+        combos = [("push", "l2", "TRUE", 1, 0, 0, "{}"), ("pull", "l2", "FALSE", 1, 0, 0, "{}"),
+                  ("push", "none", "FALSE", 0, 1, 0, ALL_OLD), ("pull", "none", "TRUE", 0, 1, 0, ALL_OLD),
+                  ("push", "none", "TRUE", 0, 0, 1, "{}"), ("pull", "l2", "FALSE", 0, 0, 1, "{}")]
     else:
-        combos = [(d, l, f, 1, 0) for d in ("push", "pull") for l in ("none", "l2", "l2_4") for f in ("FALSE", "TRUE")] + \
-                 [(d, l, f, 0, 1) for d in ("push", "pull") for l in ("none", "l3") for f in ("FALSE", "TRUE")]
-    for d, l, f, np, nr in combos:
-        cfg = stages.write_cfg(ctx, "sys-%s-%s-%s-%d-%d.cfg" % (d, l, f, np, nr), SYS_CFG % (d, 4, l, f, np, nr, 80, "FALSE", "INVARIANTS C01_Delivered C03_OnlyBoth\nVIEW View\nCONSTRAINT Constr"))
-        res = ctx.tlc("Sys", cfg, timeout=1200, heap="8g")
+        combos = [(d, l, f, 1, 0, 0, "{}") for d in ("push", "pull") for l in ("none", "l2", "l2_4") for f in ("FALSE", "TRUE")] + \
+                 [(d, l, f, 0, 1, 0, ALL_OLD) for d in ("push", "pull") for l in ("none", "l3") for f in ("FALSE", "TRUE")] + \
+                 [(d, l, f, 0, 0, 1, "{}") for d in ("push", "pull") for l in ("none", "l2") for f in ("FALSE", "TRUE")] + \
+                 [(d, "none", f, 0, 2, 0, '{"error"}') for d in ("push", "pull") for f in ("FALSE", "TRUE")] + \
+                 [(d, "none", "FALSE", 1, 1, 1, '{"cancelled","error"}') for d in ("push", "pull")]
+    for d, l, f, np, nr, ncl, olds in combos:
+        cfg = stages.write_cfg(ctx, "sys-%s-%s-%s-%d-%d-%d.cfg" % (d, l, f, np, nr, ncl), SYS_CFG % (d, 4, l, f, np, nr, ncl, olds, 80, "FALSE", "INVARIANTS C01_Delivered C03_OnlyBoth\nVIEW View\nCONSTRAINT Constr"))
+        res = ctx.tlc("Sys", cfg, timeout=1800, heap="8g")
         if res.violated:
-            raise vlib.Inconclusive("Sys model violates %s (%s %s %s pauses=%d restarts=%d): model-level counterexample, not a verdict\n%s" % (res.violated, d, l, f, np, nr, res.out[-1500:]))
-        vlib.tlc_must_pass(res, "Sys %s %s %s %d %d" % (d, l, f, np, nr))
+            raise vlib.Inconclusive("Sys model violates %s (%s %s %s pauses=%d restarts=%d closes=%d old=%s): model-level counterexample, not a verdict\n%s" % (res.violated, d, l, f, np, nr, ncl, olds, res.out[-2500:]))
+        vlib.tlc_must_pass(res, "Sys %s %s %s %d %d %d" % (d, l, f, np, nr, ncl))
         ctx.add_model(res)
 
 
@@ -90,7 +98,7 @@ def sys_replay(ctx):
     if ctx.quick():
         combos = combos[ctx.seed % 2::2]
     for d, l, f in combos:
-        cfg = stages.write_cfg(ctx, "sys-sim-%s-%s-%s.cfg" % (d, l, f), SYS_CFG % (d, 4, l, f, 1, 1, 110, "TRUE", ""))
+        cfg = stages.write_cfg(ctx, "sys-sim-%s-%s-%s.cfg" % (d, l, f), SYS_CFG % (d, 4, l, f, 1, 1, 1 if k % 2 else 0, '{"cancelled","error","silent"}', 110, "TRUE", ""))
         res = ctx.tlc("Sys", cfg, workers=1, simulate="num=%d" % n_per, depth=120, seed=ctx.seed * 31 + k, timeout=900, heap="6g")
         k += 1
         if res.timeout or "Error:" in res.out:
@@ -158,6 +166,9 @@ def gsx_traces(ctx, prefixes, n):
 def run(ctx):
     sys_model(ctx)
     sys_replay(ctx)
+    # manager level: every stimulus on every status - a responder whose channel already failed or was cancelled never sends an accepted Complete
+    stages.mgr_family(ctx, ["C01."], ["all"], lambda s: s["stim"]["kind"] == "OnChannelCompleted", quick_n=1500, model=False, sims=False,
+                      keep=lambda l: '"kind":"OnChannelCompleted"' in l or '"kind":"SendVoucherResult"' in l)
     ctx.rule = ("REAL two-node transfers (two real managers, real graphsync transport, real libp2p adapter over mocknet): scenarios draw direction, payload (random bytes, duplicate blocks), "
                 "default/per-channel stores on either side, validator behaviour (successive data limits with re-validation, finalization), pause/resume by either side at a progress point, "
                 "and process bounce + restart of either side; both subscriber streams, final states and a DAG walk of the receiver's actual block store (at the instant of Completed and at "
